@@ -33,7 +33,7 @@ func init() {
 		Level: "fault_enumeration",
 		Rule: "part (A) store handlers with restart injection: per corpus (group values with '|', quotes, unicode; negative/fractional numbers) laid out over 2..6 fractions, a dry run counts the durable writes of one asynchronous search (request info, one partial result per fraction, final info); " +
 			"then, each from a pristine copy in fresh processes: crash after the k-th durable write for every k (and before the request is marked done), restart, poll until done, compare IDs/histogram/aggregation summaries with the synchronous search of the restarted store and IDs with the model; " +
-			"late-fraction scenarios: the worker is frozen after its k-th durable write, the store seals, ingests, seals and ingests again (documents in a fraction created after the start), crashes, restarts: the resumed result must equal the synchronous search taken right before the start and contain no document of the later fraction; " +
+			"the first request of every corpus also runs under strace (every .info/.qpr file is renamed into place only after its writes are covered by a completed fsync); late-fraction scenarios: the worker is frozen after its k-th durable write, the store seals, ingests, seals and ingests again (documents in a fraction created after the start), crashes, restarts: the resumed result must equal the synchronous search taken right before the start and contain no document of the later fraction; " +
 			"part (B) the proxy library (1..3 shards) and the proxy's public handlers (StartAsyncSearch/FetchAsyncSearchResult vs ComplexSearch) on the same kind of cases without restarts. " +
 			"case = one (corpus, request, k) or one (surface, request); non-trivial = the result is non-empty and, for (A), the crash point was reached; distinct = (surface, k, fractions, request class)",
 		Assumptions: []string{
@@ -41,7 +41,7 @@ func init() {
 			"a crash before the start call returned may lose the request (not acknowledged): such cases are tallied, not judged",
 			"rendered aggregation buckets are compared only for aggregations without a time interval (the asynchronous path does not carry the interval to the proxy)",
 		},
-		Batches: tiered(24, 144),
+		Batches: tiered(72, 720),
 		Run:     runC19,
 		Timeout: timeoutFor(10*time.Minute, 45*time.Minute),
 	})
